@@ -131,6 +131,10 @@ class SyncInterpreter(BaseInterpreter[TContext, TEvent]):
         # ⚙️ Initialize synchronous-specific attributes
         self._event_queue: Deque[Union[Event, DoneEvent, AfterEvent]] = deque()
         self._is_processing: bool = False
+        #: Makes "is anyone draining the queue?" and "the queue is empty, stop
+        #: draining" atomic with respect to `send()` calls from other threads
+        #: (the engine's own timer and delayed-send threads included).
+        self._queue_lock = threading.Lock()
         self._after_threads: Dict[str, threading.Thread] = {}
         self._after_events: Dict[str, threading.Event] = {}
         #: Cancellation flags for pending delayed sends, released by `stop()`.
@@ -339,10 +343,10 @@ class SyncInterpreter(BaseInterpreter[TContext, TEvent]):
         If event processing is already underway, this method returns immediately
         to prevent re-entrant execution.
         """
-        if self._is_processing:
-            return
-
-        self._is_processing = True
+        with self._queue_lock:
+            if self._is_processing:
+                return
+            self._is_processing = True
         # 🛟 Bound the macrostep. The `raise` built-in re-enters this queue, so
         #    an action that raises its own trigger event feeds itself forever.
         #    `max_iterations` previously guarded only the eventless (`always`)
@@ -359,8 +363,21 @@ class SyncInterpreter(BaseInterpreter[TContext, TEvent]):
         limit = getattr(self.machine, "max_iterations", 1000) + len(
             self._event_queue
         )
+        released = False
         try:
-            while self._event_queue:
+            while True:
+                # 🔒 Seeing the queue empty and giving up the drain must be
+                #    one step. Done separately (`while queue:` ... `finally:
+                #    flag = False`), a timer thread or another caller could
+                #    append its event and find the flag still set in between:
+                #    it returned, this drain had already decided to stop, and
+                #    the event sat in the queue until some later `send()`
+                #    happened to pick it up - or for good.
+                with self._queue_lock:
+                    if not self._event_queue:
+                        self._is_processing = False
+                        released = True
+                        break
                 # 🏁 Completion (or failure) ends processing: `send()` already
                 #    refuses new events once the machine is done, but events
                 #    that were queued *before* it completed (raised by an
@@ -392,7 +409,8 @@ class SyncInterpreter(BaseInterpreter[TContext, TEvent]):
                 self._process_event(current_event)
                 self._process_transient_transitions()
         finally:
-            self._is_processing = False
+            if not released:
+                self._is_processing = False
             logger.debug("🎉 Event processing cycle completed. Queue empty.")
 
     # -------------------------------------------------------------------------
